@@ -13,15 +13,16 @@ variable {ct : ClassTable} {dt : List String}
 
 mutual
 /-- runtime child `d` (with its branch) can be merged below a file node with info `i` and children `fk`:
-    no runtime child is named like an object of the body it lands in, and for append-over the scratch name
-    `_tmp_<name>` is free and the old node's children are not named like objects of the new body -/
+    no runtime child is named like an object of the body it lands in, and for append-over the old node's children
+    are not named like objects of the new body.  (`avoid`, the names taken in the group, is no longer consulted: since
+    the repair of `_overwrite_single_node` the scratch name is chosen free, so a sibling `_tmp_<name>` is no obstacle.) -/
 def compatOne (over : Bool) (i : NodeInfo) (fk : List Tree) (avoid : List String) : Tree → Bool
   | .mk di dk =>
     !(akeys i.body).contains di.name &&
     (match findKid di.name fk with
      | none => true
      | some f =>
-       (!over || (!avoid.contains ("_tmp_" ++ di.name) && f.kids.all (fun k => !(akeys di.body).contains k.name))) &&
+       (!over || f.kids.all (fun k => !(akeys di.body).contains k.name)) &&
        compatKids over (if over then di else f.info) f.kids
          (akeys (if over then di else f.info).body ++ names f.kids ++ names dk) dk)
 def compatKids (over : Bool) (i : NodeInfo) (fk : List Tree) (avoid : List String) : List Tree → Bool
@@ -191,7 +192,7 @@ theorem appendOne_spec (over : Bool) : ∀ (d : Tree) (i : NodeInfo) (fk : List 
         simp only [i']
         split
         · next ho =>
-          have hall := (hover.resolve_left (by simp [ho])).2
+          have hall := hover.resolve_left (by simp [ho])
           simp only [Tree.wf, Bool.and_eq_true]
           refine ⟨Tree.wf_info hd, kidsWF_retake' f.kids _ _ (Tree.wf_kids hfw) ?_⟩
           intro k hk
@@ -207,13 +208,6 @@ theorem appendOne_spec (over : Bool) : ∀ (d : Tree) (i : NodeInfo) (fk : List 
         split
         · next ho =>
           have hov := hover.resolve_left (by simp [ho])
-          have htmp : alookup ("_tmp_" ++ di.name) (i.body ++ encodeKids fk) = none := by
-            apply alookup_none_of_not_mem
-            rw [akeys_append, akeys_encodeKids]
-            intro hm
-            apply hov.1
-            apply havoid
-            simpa using hm
           have hlinks := links_encode (ct := ct) (dt := dt) f hfw
           have hany : (encodeKids f.kids).any (fun kv => (alookup kv.1 di.body).isSome) = false := by
             rw [Bool.eq_false_iff]
@@ -224,11 +218,11 @@ theorem appendOne_spec (over : Bool) : ∀ (d : Tree) (i : NodeInfo) (fk : List 
               rw [← akeys_encodeKids]; exact List.mem_map_of_mem hx
             simp only [names, List.mem_map] at hxk
             obtain ⟨k, hkm, hkn⟩ := hxk
-            have := (List.all_eq_true.mp hov.2) k hkm
+            have := (List.all_eq_true.mp hov) k hkm
             simp only [Bool.not_eq_true', List.contains_eq_mem, decide_eq_false_iff_not] at this
             exact this (hkn ▸ alookup_isSome_mem_akeys _ _ hxs)
           simp only [overwriteSingleNode, encode, Obj.kids, alookup_body_kids _ _ _ hnb, hf, Option.map_some,
-            htmp, Option.isSome_none, Bool.false_eq_true, if_false]
+            Option.isSome_none, Bool.false_eq_true, if_false]
           have hl2 : (encode f).kids.filter (fun kv => hasDataTag dt kv.2) = encodeKids f.kids := hlinks
           cases f with
           | mk fi fkk =>
